@@ -6,17 +6,17 @@ EXTENDS Integers, Sequences, FiniteSets, TLC, Json
 
 Log == ndJsonDeserialize("trace.ndjson")
 
-VARIABLES l, scen, cap, acc, nxt, mw, mr   \* mw/mr: implementation-layer pointers predicted by the model
-vars == <<l, scen, cap, acc, nxt, mw, mr>>
+VARIABLES l, scen, cap, acc, nxt, mw, mr, off   \* mw/mr: implementation-layer pointers predicted by the model; off: byte-value offset of the current ring
+vars == <<l, scen, cap, acc, nxt, mw, mr, off>>
 
 Min(a, b) == IF a < b THEN a ELSE b
 Report(line, preds, sc) == \A p \in preds : PrintT(<<"VIOL", line, p, sc>>)
 Drift(line, what, sc) == PrintT(<<"DRIFT", line, what, sc>>)
 
-Init == l = 1 /\ scen = 0 /\ cap = 0 /\ acc = 0 /\ nxt = 0 /\ mw = 0 /\ mr = 0
+Init == l = 1 /\ scen = 0 /\ cap = 0 /\ acc = 0 /\ nxt = 0 /\ mw = 0 /\ mr = 0 /\ off = 0
 
 \* data: sequence of byte values; expected byte of global index g is g % 251
-PrefixBad(d) == \E j \in 1..Len(d) : d[j] # (nxt + j - 1) % 251
+PrefixBad(d) == \E j \in 1..Len(d) : d[j] # (off + nxt + j - 1) % 251
 
 ReadPreds(e, d) ==
     (IF PrefixBad(d) THEN {"C18_prefix"} ELSE {})
@@ -27,38 +27,42 @@ Step ==
   /\ l' = l + 1
   /\ LET e == Log[l] IN
      CASE e.ev = "Create" ->
-            /\ scen' = e.scen /\ cap' = e.cap /\ acc' = 0 /\ nxt' = 0 /\ mw' = 0 /\ mr' = 0
+            /\ scen' = e.scen /\ cap' = e.cap /\ acc' = 0 /\ nxt' = 0 /\ mw' = 0 /\ mr' = 0 /\ off' = 0
+       [] e.ev = "Recreate" ->
+            \* a new writer's Create on regions left behind by the previous one: the ring starts empty (RingBuffer.tla: Recreate)
+            /\ Report(l, IF e.readable # 0 \/ e.writeable # e.cap - 1 THEN {"C18_fresh_empty"} ELSE {}, scen)
+            /\ cap' = e.cap /\ acc' = 0 /\ nxt' = 0 /\ mw' = 0 /\ mr' = 0 /\ off' = e.off /\ UNCHANGED scen
        [] e.ev = "Write" ->
             /\ Report(l, (IF e.ret > e.n \/ e.ret < 0 THEN {"C18_accept"} ELSE {})
                          \cup (IF e.ret > cap - (acc - nxt) THEN {"C18_overwrite"} ELSE {}), scen)
             /\ (e.ret = Min(e.n, cap - 1 - (acc - nxt)) \/ Drift(l, "write_accept", scen))
-            /\ acc' = acc + e.ret /\ UNCHANGED <<scen, cap, nxt>> /\ mw' = mw + e.ret /\ mr' = mr
+            /\ acc' = acc + e.ret /\ UNCHANGED <<scen, cap, nxt, off>> /\ mw' = mw + e.ret /\ mr' = mr
        [] e.ev \in {"Read", "ReadAll", "Drain"} ->
             /\ Report(l, ReadPreds(e, e.data)
                          \cup (IF e.ev = "Read" /\ Len(e.data) > e.n THEN {"C18_toomany"} ELSE {})
                          \cup (IF e.ev = "Drain" /\ nxt + Len(e.data) # acc THEN {"C18_lossfree"} ELSE {}), scen)
             /\ (e.ev # "Read" \/ Len(e.data) = Min(e.n, acc - nxt) \/ Drift(l, "read_count", scen))
-            /\ nxt' = nxt + Len(e.data) /\ UNCHANGED <<scen, cap, acc, mw>> /\ mr' = mr + Len(e.data)
+            /\ nxt' = nxt + Len(e.data) /\ UNCHANGED <<scen, cap, acc, mw, off>> /\ mr' = mr + Len(e.data)
        [] e.ev = "ReadMult" ->
             /\ Report(l, IF e.err THEN {} ELSE
                          ReadPreds(e, e.data) \cup (IF Len(e.data) % e.n # 0 THEN {"C18_multiple"} ELSE {}), scen)
             /\ nxt' = IF e.err THEN nxt ELSE nxt + Len(e.data)
             /\ mr' = IF e.err THEN mr ELSE mr + Len(e.data)
-            /\ UNCHANGED <<scen, cap, acc, mw>>
+            /\ UNCHANGED <<scen, cap, acc, mw, off>>
        [] e.ev = "Conc" ->
             \* a writer and a reader at the same time on the same shared memory (RingConc.tla): every byte the reader got is
             \* the byte written for its stream position, and the reader got everything that was accepted
             /\ Report(l, (IF e.bad >= 0 THEN {"C18_prefix"} ELSE {}) \cup (IF e.bad = 0 - 2 \/ (e.bad < 0 /\ e.nread # e.produced) THEN {"C18_lossfree"} ELSE {}), e.scen)
-            /\ UNCHANGED <<scen, cap, acc, nxt, mw, mr>>
+            /\ UNCHANGED <<scen, cap, acc, nxt, mw, mr, off>>
        [] e.ev = "Panic" ->
-            /\ Report(l, {"C18_nocrash"}, scen) /\ UNCHANGED <<scen, cap, acc, nxt, mw, mr>>
+            /\ Report(l, {"C18_nocrash"}, scen) /\ UNCHANGED <<scen, cap, acc, nxt, mw, mr, off>>
        [] e.ev = "Discard" ->
             \* e.rp, e.wp: read/write positions (monotone counters) observed after the call
             /\ Report(l, (IF e.rp % e.n # 0 /\ (\E m \in nxt..acc : m % e.n = 0) THEN {"C18_stride"} ELSE {})
                          \cup (IF e.rp < nxt THEN {"C18_norepeat"} ELSE {})
                          \cup (IF e.rp > acc THEN {"C18_beyond"} ELSE {})
                          \cup (IF e.wp # acc THEN {"C18_writeptr"} ELSE {}), scen)
-            /\ nxt' = e.rp /\ mr' = e.rp /\ UNCHANGED <<scen, cap, acc, mw>>
+            /\ nxt' = e.rp /\ mr' = e.rp /\ UNCHANGED <<scen, cap, acc, mw, off>>
 
 Next == Step
 Spec == Init /\ [][Next]_vars
